@@ -93,6 +93,7 @@ def lexVerdict (toks : List WTok) : String :=
 structure REdge where
   a : Nat
   b : Nat
+  closure : Bool
   s1 : Option Str
   s2 : Option Str
   deriving Repr, DecidableEq, Inhabited
@@ -113,7 +114,7 @@ inductive RErr
 def rstep (st : RState) : WTok → Except RErr RState
   | .atom n _ =>
     let edges := match st.prev, st.afterDot with
-      | some p, false => { a := p, b := n, s1 := none, s2 := st.pending } :: st.edges
+      | some p, false => { a := p, b := n, closure := false, s1 := none, s2 := st.pending } :: st.edges
       | _, _ => st.edges
     .ok { st with prev := some n, pending := none, afterDot := false, edges := edges }
   | .bond s => if st.pending.isSome then .error .doubleBond2 else .ok { st with pending := some s }
@@ -125,7 +126,7 @@ def rstep (st : RState) : WTok → Except RErr RState
       | some (a, s1) =>
         if a == cur then .error .selfClosure
         else .ok { st with opened := st.opened.filter (·.1 != c), pending := none,
-                           edges := { a := a, b := cur, s1 := s1, s2 := st.pending } :: st.edges }
+                           edges := { a := a, b := cur, closure := true, s1 := s1, s2 := st.pending } :: st.edges }
       | none => .ok { st with opened := st.opened ++ [(c, cur, st.pending)], pending := none }
   | .lpar =>
     match st.prev with
@@ -153,6 +154,93 @@ def readToks (ts : List WTok) : Except RErr (List REdge) :=
     else if st.pending.isSome then .error .bondAtEnd
     else .ok st.edges.reverse
 
+/-! ## chain bonds alone -/
+
+/-- what decides the chain bonds: atoms, parentheses, dots -/
+inductive SK
+  | atom (n : Nat)
+  | lpar
+  | rpar
+  | dot
+  deriving Repr, DecidableEq, Inhabited
+
+def WTok.skel : WTok → Option SK
+  | .atom n _ => some (.atom n)
+  | .lpar => some .lpar
+  | .rpar => some .rpar
+  | .dot => some .dot
+  | _ => none
+
+def FTok.skel : FTok → Option SK
+  | .atom n => some (.atom n)
+  | .lpar => some .lpar
+  | .rpar => some .rpar
+  | .bond _ _ => none
+
+/-- the chain bonds a reader forms: the pairs (previous atom, atom); `ad` = a dot was seen since the previous atom -/
+def skRead : Option Nat → Bool → List Nat → List SK → Option (List (Nat × Nat))
+  | _, _, _, [] => some []
+  | prev, ad, stk, .atom n :: ts =>
+    (skRead (some n) false stk ts).map fun es => match prev, ad with
+      | some p, false => (p, n) :: es
+      | _, _ => es
+  | prev, ad, stk, .lpar :: ts =>
+    match prev with
+    | some p => skRead prev ad (p :: stk) ts
+    | none => none
+  | _, ad, stk, .rpar :: ts =>
+    match stk with
+    | p :: tl => skRead (some p) ad tl ts
+    | [] => none
+  | prev, _, stk, .dot :: ts => skRead prev true stk ts
+
+/-- chain bonds read from a writer token list (closures and bond symbols play no role) -/
+def chainRead (ts : List WTok) : Option (List (Nat × Nat)) := skRead none false [] (ts.filterMap WTok.skel)
+
+def FTok.bond? : FTok → Option (Nat × Nat)
+  | .bond a b => some (a, b)
+  | _ => none
+
+/-- last atom of the main chain that starts at `tail` (where the reader's "previous atom" stands after the subtree) -/
+def chainEndKids (rec : Nat → Nat) (tail : Nat) : List Nat → Nat
+  | [] => tail
+  | [c] => rec c
+  | _ :: rest => chainEndKids rec tail rest
+
+def chainEnd (edges : List (Nat × List Nat)) : Nat → Nat → Nat
+  | 0, tail => tail
+  | fuel + 1, tail => chainEndKids (chainEnd edges fuel) tail (alGet edges tail)
+
+/-! ## closure pairing on abstract events -/
+
+/-- the reader's closure table on events `(atom, key)`: a key that is open closes (bond first atom – this atom), any other
+    key opens.  With `key` = the written number this is what `rstep` does; with `key` = the writer's cycle identity it is
+    the pairing the writer intends. -/
+def pairStep (opened : List (Nat × Nat)) (ev : Nat × Nat) : List (Nat × Nat) × List (Nat × Nat) :=
+  match opened.lookup ev.2 with
+  | some a => (opened.filter (fun p => p.1 != ev.2), [(a, ev.1)])
+  | none => (opened ++ [(ev.2, ev.1)], [])
+
+def pairAll : List (Nat × Nat) → List (Nat × Nat) → List (Nat × Nat) × List (Nat × Nat)
+  | opened, [] => (opened, [])
+  | opened, ev :: evs =>
+    let r1 := pairStep opened ev
+    let r2 := pairAll r1.1 evs
+    (r2.1, r1.2 ++ r2.2)
+
+/-- closure events of one round in written order, keyed by cycle identity: `(atom, cycle)` -/
+def cycleEvents (r : Round) : List (Nat × Nat) :=
+  (closureAtoms r.smi r.tokens).flatMap fun n =>
+    match sortedClosures r.castedOut r.tokens n with
+    | .ok cl => cl.map fun kc => (n, kc.2)
+    | .error _ => []
+
+/-- the same keyed by the written closure number -/
+def numberEvents (r : Round) : List (Nat × Nat) :=
+  (cycleEvents r).map fun e => (e.1, (r.castedOut.lookup e.2).getD 0)
+
+def closureEdges (es : List REdge) : List (Nat × Nat) := (es.filter (·.closure)).map fun e => (e.a, e.b)
+
 /-! ## structural checkers on one run -/
 
 def undirected (a b : Nat) : Nat × Nat := if a ≤ b then (a, b) else (b, a)
@@ -165,24 +253,28 @@ def sortPairs (l : List (Nat × Nat)) : List (Nat × Nat) := l.foldr insPair []
 /-- all bonds of the molecule as sorted undirected pairs -/
 def molPairs (m : Mol) : List (Nat × Nat) := sortPairs (m.bonds.map fun (a, b, _) => undirected a b)
 
-/-- the symbol the reader must understand for bond `a–b` equals what `_format_bond` gives for it -/
-def edgeSymbolOk (m : Mol) (opts : Opts) (e : REdge) : Bool :=
-  match formatBond m opts e.a e.b with
-  | .error _ => false
-  | .ok s =>
-    let want : Option Str := some s
-    -- chain bond: one symbol; closure: both ends equal, or (asymmetric closures) exactly one end carries it
-    match e.s1, e.s2 with
-    | none, s2 => s2 == want
-    | s1, none => s1 == want
-    | s1, s2 => s1 == want && s2 == want
+/-- the symbols read for a bond are what `_format_bond` gives for it: a chain bond `a→b` carries `_format_bond(a, b)`;
+    a closure carries `_format_bond(a, b)` at its first end and `_format_bond(b, a)` at its second end (with asymmetric
+    closures the second end carries nothing) -/
+def edgeSymbolOk (m : Mol) (opts : Opts) (rs : List Round) (e : REdge) : Bool :=
+  match rs.find? (fun r => r.visited.contains e.a) with
+  | none => false
+  | some r =>
+    match formatBond m opts r.sc e.a e.b, formatBond m opts r.sc e.b e.a with
+    | .ok fwd, .ok bwd =>
+      (if !e.closure then e.s2 == some fwd
+       else match e.s1, e.s2 with
+         | some s1, none => opts.asym && s1 == fwd
+         | some s1, some s2 => s1 == fwd && s2 == bwd
+         | none, _ => false)
+    | _, _ => false
 
 /-- Tokens of the whole run denote exactly the bonds of the molecule, each once, with the right symbols -/
-def tokensDenoteMol (m : Mol) (opts : Opts) (ts : List WTok) : Bool :=
+def tokensDenoteMol (m : Mol) (opts : Opts) (rs : List Round) (ts : List WTok) : Bool :=
   match readToks ts with
   | .error _ => false
   | .ok es =>
-    sortPairs (es.map fun e => undirected e.a e.b) == molPairs m && es.all (edgeSymbolOk m opts)
+    sortPairs (es.map fun e => undirected e.a e.b) == molPairs m && es.all (edgeSymbolOk m opts rs)
 
 /-- scan of the closure numbers: never reopen an open number, never two equal numbers on one atom, all closed at a dot/end -/
 structure CScan where
@@ -250,7 +342,14 @@ def checkRun (m : Mol) (env : Env) (opts : Opts) : String :=
                  (if closuresOk ts then [] else ["closures"]) ++
                  (if cyclesWF [] [] (rs.flatMap roundCycles) then [] else ["cycles"]) ++
                  (if parensOk ts then [] else ["parens"]) ++
-                 (if tokensDenoteMol m opts ts then [] else ["denote"]) ++
+                 (if tokensDenoteMol m opts rs ts then [] else ["denote"]) ++
+                 (match readToks ts with
+                  | .ok es =>
+                    let byNum := pairAll [] (rs.flatMap numberEvents)
+                    let byCyc := pairAll [] (rs.flatMap cycleEvents)
+                    if closureEdges es == byNum.2 && byNum.2 == byCyc.2 && byCyc.1.isEmpty then [] else ["pairing"]
+                  | .error _ => ["pairing"]) ++
+                 (if chainRead ts == some (rs.flatMap fun r => r.smi.filterMap FTok.bond?) then [] else ["chain"]) ++
                  (if sortPairs (order.map (·, 0)) == sortPairs (m.ids.map (·, 0)) then [] else ["order"]) ++
                  (if lex (renderAll ts) == some (ts.filterMap toL) then [] else ["lex"])
     if fails.isEmpty then s!"ok maxopen={(closureScan ts).maxOpen} rounds={rs.length}" else "FAIL " ++ " ".intercalate fails
